@@ -132,8 +132,13 @@ Inductive c06_case :=
 (* slots: the writes as the implementation resolved them (successful ones complete, in revision order);
    a range read of prefix P served at R0 (header revision) returned kv0; a watch on P from R0+1 delivered evs
    (complete up to the last write); lists: range reads at explicit revisions R' >= R0 *)
-| KLw (P : bytes) (slots : list wevent) (R0 : N) (kv0 : store) (wok : bool) (evs : list event) (lists : list (N * store)).
+| KLw (P : bytes) (slots : list wevent) (R0 : N) (kv0 : store) (wok : bool) (evs : list event) (lists : list (N * store))
    (* wok = false: the watch was refused (then evs = [] and only the range reads are compared) *)
+(* runs with unknown-outcome writes (engine answers "uncertain", applied or not) and compactions inside the retry
+   window: the writes as resolved are not known from the responses, so nothing is compared with the model; only
+   the property is evaluated: range read (R0, kv0), the events the watch on P from R0+1 delivered until the retry
+   queue was empty and a sentinel write had arrived, and the range read kvf at the final revision Rf *)
+| KLf (P : bytes) (R0 : N) (kv0 : store) (evs : list event) (Rf : N) (kvf : store).
 
 Definition evs_eqb6 (a b : list event) : bool := list_eqb ev_eqb a b.
 
@@ -158,13 +163,23 @@ Definition c06_check (c : c06_case) : bool :=
       (negb wok || evs_eqb6 evs (filter (in_window R0 top P) (events_of slots))) &&
       forallb (fun rl => store_eqb (snd rl) (in_prefix P (snapshot V (fst rl)))) lists &&
       delete_slots_ok slots
+  | KLf _ _ _ _ _ _ => true       (* unknown outcomes are C09's subject: oracle only *)
   end.
 
 (* the property on the observations alone: the delivered events are exactly the implementation's own successful
    writes after R0 on the prefix (no hole, nothing extra, right content), and replaying them over the first
    range result gives every later range result *)
+(* events of a stream from R0+1 on prefix P: strictly increasing revisions above R0, keys under P *)
+Fixpoint stream_ok (P : bytes) (last : N) (evs : list event) : bool :=
+  match evs with
+  | [] => true
+  | e :: t => (last <? e_rev e) && has_prefix P (e_key e) && stream_ok P (e_rev e) t
+  end.
+
 Definition c06_oracle (c : c06_case) : option N :=
   match c with
+  | KLf P R0 kv0 evs Rf kvf =>
+      ok_if (stream_ok P R0 evs && store_eqb (apply_events (filter (fun e => e_rev e <=? Rf) evs) kv0) kvf)
   | KLw P slots R0 kv0 wok evs lists =>
       if negb wok then None else
       ok_if (evs_eqb6 evs (filter (in_window R0 top P) (events_of slots)) && forallb (fun rl => (fst rl <? R0) ||
